@@ -85,7 +85,11 @@ type shutdownPlan struct {
 }
 
 func drawTok(t *rapid.T, id int, w, h int) tok {
-	switch rapid.IntRange(0, 10).Draw(t, "tokkind") {
+	switch rapid.IntRange(0, 11).Draw(t, "tokkind") {
+	case 11:
+		// an OSC 52 reply whose payload is not valid padded base64: no event,
+		// and certainly no stall
+		return tok{"junk", []byte("\x1b]52;c;YQ\x1b\\"), "?none"}
 	case 10:
 		// a release, then the same buttonless motion report twice (the
 		// pointer reported again in the same cell): three events
@@ -897,6 +901,33 @@ func (w *ew) phaseDrain() {
 		}
 	}
 	// Fini: the drainer must get nil / a closed channel.
+	if w.p.Channel && w.evch != nil && !w.p.QuitFirst && w.p.FiniHow == 0 && w.p.PollCalls {
+		// the consumer steps away while more events arrive: the forwarder ends
+		// up holding one, blocked on the application's channel, when Fini comes
+		if d := s.Find("drainer"); d != nil && !d.Done() {
+			s.Stall(d)
+			po := s.Spawn("late-poster", func() {
+				for i := 0; i < 5; i++ {
+					_ = w.Scr.PostEvent(tcell.NewEventInterrupt(postID{97, i}))
+				}
+			})
+			s.Run()
+			_ = po
+			fb := s.Spawn("finisher", func() { w.Scr.Fini() })
+			s.Run()
+			s.Unstall(d)
+			s.Run()
+			w.Tty.Faults.Inc("fini_with_forwarder_blocked")
+			if !fb.Done() {
+				w.Failf("C06/deadlock/fini", "Fini did not return while the ChannelEvents forwarder was blocked: %v", s.Blocked())
+				return
+			}
+			if !d.Done() || !w.chClosed {
+				w.Failf("C05/channel-close", "Fini arrived while ChannelEvents was handing an event to a consumer that was away; when the consumer came back the channel was never closed: %v", s.Blocked())
+			}
+			return
+		}
+	}
 	fin := s.Spawn("finisher", func() {
 		if w.p.FiniHow >= 1 {
 			_ = w.Scr.Suspend()
